@@ -129,6 +129,22 @@ def impl_replay(job):
                 res = {"ok": False, "what": "rows", "detail": "row %d: got %r expected %r; rules %r" % (k, rows[k] if k >= 0 else None, want[k] if k >= 0 else None, rules)}
             elif used != len(draws):
                 res = {"ok": False, "what": "draws", "detail": "consumed %d draws, the behaviour has %d" % (used, len(draws))}
+            if res["ok"] and not any(rl["kind"] == "param" for rl in rec["rules"]):
+                # the same scripted run once more on the SAME model object: rule objects keep no state between runs
+                # (not when a rule assigns a parameter: that assignment legitimately persists in the model)
+                brandom.py_verif_script(draws + [0.5] * 4)
+                if job["via"] == 2:
+                    r = py_simulate_model(tp, Model=m, stochastic=True, safe=rec["safe"], return_dataframe=False)
+                else:
+                    itf = SafeModelCSimInterface(m) if rec["safe"] else ModelCSimInterface(m)
+                    itf.py_set_dt(dt)
+                    r = SSASimulator().py_simulate(itf, tp)
+                brandom.py_verif_script(None)
+                got = r.py_get_result()
+                rows_b = [[float(got[i, c]) for c in cols] for i in range(got.shape[0])]
+                if rows_b != want:
+                    k = next((i for i in range(min(len(rows_b), len(want))) if rows_b[i] != want[i]), -1)
+                    res = {"ok": False, "what": "second-run-rows", "detail": "second run of the same model, row %d: got %r expected %r; rules %r" % (k, rows_b[k] if k >= 0 else None, want[k] if k >= 0 else None, rules)}
             # ---- property-level checks in the other modes (real seeds)
             if res["ok"]:
                 res = _forked(lambda: extra_modes(rec, fresh, tp, job, rules), 10.0)
